@@ -265,7 +265,9 @@ static Expect expect_wep1(const Model& m, const Bytes& f, const Plain* orig, boo
     if (!parse_hdr(f, e.h, e.off, alt)) { e.why = "shorter than its header"; return e; }
     e.parsed = true; const Hdr& h = e.h;
     if (h.type != 2) { e.why = "not a data frame"; return e; }
-    if (!h.prot) { e.why = "not protected"; return e; }
+    if (!h.prot) {      // an unprotected frame is not "decrypted"; the one excuse: behind an LLC/SNAP header it carries bytes that a known key opens (the statement is silent on that)
+        e.why = "not protected"; if (f.size() >= e.off + 16) for (auto& kv : m.wep) if (wep_open(kv.second, &f[e.off + 8], f.size() - e.off - 8).integrity) { e.v = EITHER; e.why = "not protected, but the bytes behind the LLC/SNAP header open with a known key"; }
+        return e; }
     if (f.size() == e.off) { e.why = "empty body"; return e; }
     const Bytes* key = nullptr; bool ambiguous = false;
     if (h.four()) { for (const Mac* a : {&h.a1, &h.a2, &h.a3, &h.a4}) { auto it = m.wep.find(*a); if (it == m.wep.end()) { ambiguous = true; continue; } if (key && *key != it->second) ambiguous = true; key = &it->second; } }
@@ -280,7 +282,9 @@ static Expect expect_wpa1(const Model& m, const Bytes& f, const Plain* orig, boo
     if (!parse_hdr(f, e.h, e.off, alt)) { e.why = "shorter than its header"; return e; }
     e.parsed = true; const Hdr& h = e.h;
     if (h.type != 2) { e.why = "not a data frame"; return e; }
-    if (!h.prot) { e.why = "not protected"; return e; }
+    if (!h.prot) {
+        e.why = "not protected"; if (f.size() >= e.off + 24) for (auto& kv : m.wpa) { const u8* b8 = &f[e.off + 8]; size_t n8 = f.size() - e.off - 8; if ((kv.second.ccmp ? ccmp_open(kv.second.ptk, h, b8, n8) : tkip_open(kv.second.ptk, h, b8, n8)).integrity) { e.v = EITHER; e.why = "not protected, but the bytes behind the LLC/SNAP header open with a known key"; } }
+        return e; }
     if (f.size() == e.off) { e.why = "empty body"; return e; }
     auto it = m.wpa.find(mkpair(h.a1, h.a2));               // the pairwise key belongs to {RA, TA}
     size_t n = f.size() - e.off; const u8* body = &f[e.off]; const PairKey* k = it == m.wpa.end() ? nullptr : &it->second;
